@@ -1032,7 +1032,11 @@ impl<'de: 'b, 'a, 'b, 'c> DeserializeSeed<'de> for StateSeed<'a, 'b, 'c> {
                                 let mut path_refs = Vec::with_capacity(paths.len());
 
                                 for path in paths {
-                                    if path.starts_with('/') || path.ends_with('/') {
+                                    if path.is_empty() {
+                                        self.result.error(ErrorCode::E052,
+                                                              format!("In inventory version {}, state key '{}' contains an empty path",
+                                                                      self.version, digest));
+                                    } else if path.starts_with('/') || path.ends_with('/') {
                                         self.result.error(ErrorCode::E053,
                                                               format!("In inventory version {}, state key '{}' contains a path with a leading/trailing '/'. Found: {}",
                                                                       self.version, digest, path));
